@@ -103,6 +103,65 @@ theorem report_count (lower : String → String) (supplemental : S → Bool) (tx
   rw [(groupings_conserve lower _).2.2.2.2.2]
   simp [List.length_flatMap]
 
+/-! ### Reading a source can FAIL (`cmd_run`'s `try … except Exception: continue`, `load_supplemental_sources`' "skip sources
+that can't be loaded").  Not totalised away: `read` / `readSupp` return `Except`, the pipeline catches PER SOURCE. -/
+
+variable {E R : Type}
+
+/-- what the rule expressions can query: the supplemental sources that could be loaded, in configuration order -/
+def suppData (supplemental : S → Bool) (readSupp : S → Except E R) (sources : List S) : List R :=
+  (sources.filter supplemental).filterMap (fun s => match readSupp s with | .ok r => some r | .error _ => none)
+
+/-- `except Exception: continue`: a read that raises yields no transaction -/
+def orNil : Except E (List T) → List T
+  | .ok l => l
+  | .error _ => []
+
+/-- `tally up` with fallible I/O: the supplemental tables that load are handed to every ordinary source's
+parse-and-classify step `read`; an ordinary source whose read raises is reported and yields no transaction -/
+def runUpIO (lower : String → String) (supplemental : S → Bool) (readSupp : S → Except E R)
+    (read : List R → S → Except E (List T)) (sources : List S) : Stats Int :=
+  runUp lower supplemental (fun s => orNil (read (suppData supplemental readSupp sources) s)) sources
+
+/-- an ORDINARY source that exists but cannot be read (wrong encoding, a directory, permission denied …) leaves the
+report exactly as it is without that source: the run completes and no other figure moves -/
+theorem unreadable_source_neutral (lower : String → String) (supplemental : S → Bool) (readSupp : S → Except E R)
+    (read : List R → S → Except E (List T)) (pre post : List S) (s : S) (hs : supplemental s = false)
+    (hfail : ∀ d, ∃ e, read d s = .error e) :
+    runUpIO lower supplemental readSupp read (pre ++ s :: post) = runUpIO lower supplemental readSupp read (pre ++ post) := by
+  have hd : suppData supplemental readSupp (pre ++ s :: post) = suppData supplemental readSupp (pre ++ post) := by
+    simp [suppData, List.filter_append, List.filter_cons, hs]
+  unfold runUpIO
+  rw [hd]
+  apply silent_source_neutral
+  right
+  obtain ⟨e, he⟩ := hfail (suppData supplemental readSupp (pre ++ post))
+  simp [he, orNil]
+
+/-- a SUPPLEMENTAL source that exists but cannot be loaded is as if it were not configured: same queryable data,
+same report — in particular the run is not aborted -/
+theorem unreadable_supplemental_neutral (lower : String → String) (supplemental : S → Bool) (readSupp : S → Except E R)
+    (read : List R → S → Except E (List T)) (pre post : List S) (s : S) (hs : supplemental s = true)
+    (e : E) (hfail : readSupp s = .error e) :
+    runUpIO lower supplemental readSupp read (pre ++ s :: post) = runUpIO lower supplemental readSupp read (pre ++ post) := by
+  have hd : suppData supplemental readSupp (pre ++ s :: post) = suppData supplemental readSupp (pre ++ post) := by
+    simp [suppData, List.filter_append, List.filter_cons, hs, hfail]
+  unfold runUpIO
+  rw [hd]
+  exact silent_source_neutral lower supplemental _ pre post s (Or.inl hs)
+
+/-- a supplemental source is QUERY-ONLY: whatever it contains, it adds no transaction; it can change the report only
+through what `read` does with the table -/
+theorem supplemental_query_only (lower : String → String) (supplemental : S → Bool) (readSupp : S → Except E R)
+    (read : List R → S → Except E (List T)) (pre post : List S) (s : S) (hs : supplemental s = true)
+    (hignored : ∀ d d' x, read d x = read d' x) :
+    runUpIO lower supplemental readSupp read (pre ++ s :: post) = runUpIO lower supplemental readSupp read (pre ++ post) := by
+  unfold runUpIO
+  rw [show (fun x => orNil (read (suppData supplemental readSupp (pre ++ s :: post)) x)) =
+        (fun x => orNil (read (suppData supplemental readSupp (pre ++ post)) x)) from
+      funext fun x => by rw [hignored _ (suppData supplemental readSupp (pre ++ post)) x]]
+  exact silent_source_neutral lower supplemental _ pre post s (Or.inl hs)
+
 /-! non-vacuity: three sources (one supplemental, one empty) -/
 inductive Src | bank | card | orders | missing
 deriving DecidableEq
@@ -115,5 +174,19 @@ def tx : Src → List T
 example : flowOf (runUp asciiLower supp tx [.bank, .orders, .missing, .card]) = ⟨10000, 6700, 0, 0, 0, 0, 3, -3300⟩ := by
   decide +kernel
 example : Silent supp tx .orders ∧ Silent supp tx .missing := ⟨Or.inl rfl, Or.inr rfl⟩
+
+/-! non-vacuity of the I/O theorems: `.missing` raises when read, the `.orders` table cannot be loaded, and still the
+bank and card figures are exactly those of the two-source budget -/
+def rd (_ : List Nat) : Src → Except String (List T)
+  | .missing => .error "'utf-8' codec can't decode byte 0xe9"
+  | s => .ok (tx s)
+def rdSupp : Src → Except String Nat
+  | .orders => .error "[Errno 21] Is a directory"
+  | _ => .ok 0
+example : (∀ d, ∃ e, rd d .missing = .error e) ∧ rdSupp .orders = .error "[Errno 21] Is a directory" :=
+  ⟨fun _ => ⟨_, rfl⟩, rfl⟩
+example : flowOf (runUpIO asciiLower supp rdSupp rd [.bank, .orders, .missing, .card]) =
+    flowOf (runUpIO asciiLower supp rdSupp rd [.bank, .card]) := by
+  decide +kernel
 
 end TallyVerif.Props.C11
